@@ -88,7 +88,12 @@ void xmark_runcry(u8 *self, u8 *block)
   u32 s = rs_wid[rs_cur < NT ? rs_cur : 0];
   CHECK(s < THREADS, "worker id in range");
   if (s >= THREADS) return;
-  if (seqno[s] == 0) { stream_obj[s] = self; vf_mode_getiv(self, first_reg[s]); }
+  if (seqno[s] == 0) {
+    /* every runcry() writes its own object (mode register and the AES working state aeshandle::w; frame condition of C10) outside any
+       critical section, so two workers driving one object race on it: the result would depend on the interleaving (C03) */
+    for (u32 o = 0; o < THREADS; o++) if (o != s && seqno[o] != 0) CHECK(stream_obj[o] != self, "no two workers drive the same stream object (runcry mutates its object without synchronisation)");
+    stream_obj[s] = self; vf_mode_getiv(self, first_reg[s]);
+  }
   CHECK(stream_obj[s] == self, "worker j always drives the same stream object j");
   for (u32 i = 0; i < 16; i++) block[i] ^= mask(s, seqno[s], i);
   seqno[s]++;
